@@ -19,7 +19,8 @@
 EXTENDS Integers, Sequences, FiniteSets
 
 Units == {"H", "M", "S", "m", "u", "n"}
-BadUnits == {"x", "h", "s", ""}
+\* (letters in the wrong case, letters and signs beyond every unit letter, none)
+BadUnits == {"x", "h", "s", "", "z", "~", "Q", "%", "U"}
 
 \* representative values per digit count (the wire format allows 1..8 digits)
 Vals == {0, 1, 9, 10, 99, 100, 999, 5000, 99999, 100000, 2562047, 2562048, 9999999, 10000000, 99999999}
@@ -51,7 +52,13 @@ PropCases ==
         kind : {"unary", "stream"}]
   \cup [fam : {"prop"}, mant : {0}, exp : {0}, kind : {"unary", "stream"}]    \* no deadline
 
-Cases == ParseCases \cup PropCases
+\* the caller's outgoing metadata itself carries a grpc-timeout entry (metadata
+\* forwarded by a proxy from its own incoming call): the caller's deadline, not
+\* that entry, is what the handler must get
+FwdCases ==
+  [fam : {"prop"}, mant : {3, 40}, exp : {5}, kind : {"unary", "stream"}, mdto : {"1H", "1n", "5S", "20m"}]
+
+Cases == ParseCases \cup PropCases \cup FwdCases
 
 \* a header of the form the property talks about
 Valid(c) == c.sign = "" /\ ~c.lead /\ ~c.trail /\ c.unit \in Units /\ (c.val >= 0 \/ c.val = -1)
@@ -83,4 +90,11 @@ ChkProp(o) ==
        \cup V(o.dlhi >= o.cdlo - o.g, "handler-deadline-spuriously-early")
 
 Chk(o) == IF o.fam = "parse" THEN ChkParse(o) ELSE ChkProp(o)
+
+\* the part of ChkParse that is about the server as a gate (C11): whatever the
+\* header says, no panic and a well-formed reply
+ChkGate(o) ==
+  IF o.fam # "parse" THEN {}
+  ELSE IF o.panicked THEN {"panic"}
+  ELSE V(o.http = 200, "reply-not-well-formed")
 =============================================================================
